@@ -409,6 +409,62 @@ static void sorted_long(const pinst *p) {
     vh_class(ck, "%s", p->tag);
 }
 
+/* duplicate runs in medium-sized sorted arrays: an ascending array of len elements with ONE run of r equal values
+ * starting at every index s (and, for narrow widths, the saturated tail run as a second one); Member must return the FIRST
+ * equal element and BinarySearch the lower bound, for the run's value, both neighbours and an absent value - any probe
+ * that lands inside the run must still walk back to its start */
+static void sorted_dups(const pinst *p) {
+    int w = p->width;
+    uint64_t mask = w >= 64 ? ~0ULL : (1ULL << w) - 1;
+    static const uint32_t LENS[] = {16, 31, 32, 33, 47, 48, 49, 63, 64, 65, 100, 128, 129, 160};
+    static const uint32_t RUNS[] = {2, 3, 16, 17, 33};
+    static uint64_t ref[200];
+    uint8_t *st = calloc(1, 4096);
+    for (size_t li = 0; li < sizeof LENS / sizeof *LENS; li++) {
+        uint32_t len = LENS[li];
+        if ((uint64_t)len + 1 >= p->maxel) {
+            continue;
+        }
+        for (size_t ri = 0; ri < sizeof RUNS / sizeof *RUNS; ri++) {
+            uint32_t r = RUNS[ri];
+            for (uint32_t s0 = 0; s0 + r <= len; s0++) {
+                for (uint32_t i = 0; i < len; i++) {
+                    uint64_t b = 2ULL * i + 1 > mask ? mask : 2ULL * i + 1; /* odd values: even ones are absent */
+                    ref[i] = b;
+                }
+                for (uint32_t i = s0; i < s0 + r; i++) {
+                    ref[i] = ref[s0];
+                }
+                memset(st, 0, 4096);
+                for (uint32_t i = 0; i < len; i++) {
+                    p->set(st, i, ref[i]);
+                }
+                uint64_t qs[5] = {ref[s0], s0 ? ref[s0 - 1] : 0, s0 + r < len ? ref[s0 + r] : mask, ref[s0] ? ref[s0] - 1 : 0, ref[len - 1]};
+                for (int q = 0; q < 5; q++) {
+                    uint64_t v = qs[q];
+                    uint32_t lb = 0;
+                    while (lb < len && ref[lb] < v) {
+                        lb++;
+                    }
+                    int64_t mem = (lb < len && ref[lb] == v) ? (int64_t)lb : -1;
+                    uint32_t gb = p->bsearch(st, len, v);
+                    int64_t gm = p->member(st, len, v);
+                    if (gb != lb || gm != mem) {
+                        PFAIL("packed.Member/BinarySearch", "wrong_result", "%s: sorted array of %u elements with %u equal values 0x%" PRIx64 " at %u..%u: search 0x%" PRIx64 ": BinarySearch=%u want %u, Member=%" PRId64 " want %" PRId64, p->tag,
+                              len, r, ref[s0], s0, s0 + r - 1, v, gb, lb, gm, mem);
+                    }
+                    vh_count("calls", 2);
+                }
+                vh_count("cases", 1);
+            }
+        }
+        char ck[64];
+        snprintf(ck, sizeof ck, "sorted-dups/w%d/slot%d/len%u", w, p->slotbits, len);
+        vh_class(ck, "%s", p->tag);
+    }
+    free(st);
+}
+
 /* giant sorted arrays (thorough tier, where VERIF_GIANT is set): more than 2^32 BITS of elements above the insertion
  * point, for the whole-slot widths whose layout is a plain array of slots */
 static void giant_insert(const pinst *p) {
@@ -686,6 +742,20 @@ int main(int argc, char **argv) {
             }
             cur_inst = p;
             sorted_bfs(p);
+        }
+    }
+    if (vh_section_begin("sorted-dups")) {
+        for (int k = 0; k < NPINST; k++) {
+            if (!vh_case()) {
+                continue;
+            }
+            cur_inst = &PINST[k];
+            if (SB_ENTER()) {
+                sorted_dups(&PINST[k]);
+                SB_LEAVE();
+            } else {
+                PFAIL("packed.sorted", vh_fault_name(), "%s sorted-dups %s", PINST[k].tag, vh_fault_msg);
+            }
         }
     }
     /* far elements and long sorted arrays */
